@@ -29,6 +29,7 @@ type lockCfg struct {
 	Refund   []string
 	Sigflag  string // "" | SIG_INPUTS | SIG_ALL
 	Nonce    string
+	TagOrder int64 // != 0: the tags are written in a permuted order (the meaning does not depend on it)
 }
 
 func (c lockCfg) Secret() string {
@@ -47,6 +48,9 @@ func (c lockCfg) Secret() string {
 	}
 	if len(c.Refund) > 0 {
 		tags = append(tags, append([]string{"refund"}, c.Refund...))
+	}
+	if c.TagOrder != 0 {
+		rand.New(rand.NewSource(c.TagOrder)).Shuffle(len(tags), func(i, j int) { tags[i], tags[j] = tags[j], tags[i] })
 	}
 	d, _ := json.Marshal(map[string]any{"nonce": c.Nonce, "data": c.Data, "tags": tags})
 	return fmt.Sprintf(`["%s",%s]`, c.Kind, d)
